@@ -408,10 +408,18 @@ class C16(Check):
         leaf = base["targets"]
         other_names = {1: ["device", "ui", "nobody", "root"], 2: ["quote", "platform_ca", "nobody", "sgx_root"]}[ver]
         other_types = ["sgx_quote", "sgx_attestation_key", "x509_pem", "x509", "SGX_QUOTE", "sgx_quote ", "v1"]
+        # target lists that leave the element a SPARE one (off every target's path): the elements above
+        # it, and none at all
+        by = {x["name"]: x for x in base["elements"]}
+        above, cur = [], e
+        while cur["signed_by"] in by:
+            cur = by[cur["signed_by"]]
+            above.append(cur["name"])
+        spare_for = above[:1]
         for f in fields:
             extra = other_names if f in ("name", "signed_by") else other_types if f == "type" else []
             for v in self.variants() + extra:
-                for targets in (leaf, [e["name"]], [x["name"] for x in base["elements"]]):
+                for targets in (leaf, [e["name"]], [x["name"] for x in base["elements"]], spare_for, []):
                     d = G.clone(base)
                     d["targets"] = list(targets)
                     if v is ABSENT:
